@@ -658,7 +658,7 @@ class Interp:
                     body = [s for s in pr[1].body if not _is_doc(s)]
                     if len(body) == 1 and isinstance(body[0], ast.Return) and isinstance(body[0].value, ast.Attribute) \
                             and isinstance(body[0].value.value, ast.Name) and body[0].value.value.id == "self":
-                        return self.opaque_attr(base, body[0].value.attr, st)
+                        return self.opaque_attr(base, self.mangle(body[0].value.attr, pr[0]), st)
         if cls in lib.OPAQUE_METHODS and attr in lib.OPAQUE_METHODS[cls]:
             return BoundMethod(base, attr)
         if attr == "__name__":
